@@ -113,16 +113,18 @@ Owner(edges, ne) ==
                    IN  IF Cardinality(S) = 1 THEN CHOOSE j \in S : TRUE ELSE 0]
 
 \* raw = [nb, nc, ne, ext, inl, edges, npt, touch (sequences of cells), gtflag, geom, ifx, ify, cx, cy]
-RawWF(raw) ==
+RawWF0(raw) ==
   /\ raw.nb >= 0 /\ raw.nc >= 0 /\ raw.ne >= 0
   /\ Len(raw.ext) = raw.nb /\ Len(raw.inl) = raw.nb /\ Len(raw.edges) = raw.nb /\ Len(raw.npt) = raw.nb
-  /\ Len(raw.touch) = raw.nb
   /\ \A j \in 1..raw.nb : /\ Len(raw.edges[j]) >= 1
                           /\ \A k \in 1..Len(raw.edges[j]) : raw.edges[j][k] \in 1..raw.ne
-                          /\ \A k \in 1..Len(raw.touch[j]) : raw.touch[j][k] \in 1..raw.nc
   /\ raw.geom => /\ Len(raw.ifx) = raw.nb /\ Len(raw.ify) = raw.nb /\ Len(raw.cx) = raw.nc /\ Len(raw.cy) = raw.nc
                  /\ \A j \in 1..raw.nb : Len(raw.ifx[j]) = raw.npt[j] /\ Len(raw.ify[j]) = raw.npt[j]
                  /\ \A c \in 1..raw.nc : Len(raw.cx[c]) = Len(raw.cy[c])
+RawWF(raw) ==
+  /\ RawWF0(raw)
+  /\ Len(raw.touch) = raw.nb
+  /\ \A j \in 1..raw.nb : \A k \in 1..Len(raw.touch[j]) : raw.touch[j][k] \in 1..raw.nc
 
 MkFrame(raw) ==
   LET nonext == SelFrom(LAMBDA j : ~raw.ext[j], 1, raw.nb)
@@ -404,6 +406,8 @@ Known(inst) == {x[2] \o ":" \o x[1] : x \in {y \in inst : y[2] # ""}}
 HitsOf(F, s, c, r) ==
   CASE c.op \in Updates  -> IF r.raised # "" THEN {"REP.raised", "REP.raise_keeps_state"}
                             ELSE {"REP.state." \o c.op} \cup (IF F.gtflag THEN {"REP.gt_is_mean"} ELSE {})
+                                 \cup (IF c.op = "Solve" /\ \E i \in 1..Len(c.g) : c.g[i] = MinusOne
+                                       THEN {"REP.state.Solve.excluded"} ELSE {})
     [] c.op = "ByCells"  -> IF c.a = c.b THEN {}
                             ELSE {"REP.query_pure", "REP.by_cells.symmetric",
                                   IF Between(F, c.a, c.b) = {} THEN "REP.by_cells.none" ELSE "REP.by_cells.found"}
